@@ -159,7 +159,7 @@ def forms_of(rng, sig, binding, n=3):
     return forms
 
 
-def run_sessions(d, module_name, funcs, segments, compress=False, mmap_mode=None, timeout=180, recache=None, verbose=0):
+def run_sessions(d, module_name, funcs, segments, compress=False, mmap_mode=None, timeout=180, recache=None, verbose=0, location_styles=None):
     """segments: list of dict(hashseed, steps); each runs in a fresh process on the same cache directory.
     Returns list of per-segment results (None on failure) and raw run info."""
     src = module_source(funcs)
@@ -170,7 +170,8 @@ def run_sessions(d, module_name, funcs, segments, compress=False, mmap_mode=None
         cf, of = os.path.join(d, f"seg{si}.json"), os.path.join(d, f"out{si}.json")
         with open(cf, "w") as f:
             json.dump(dict(module=module_name, funcs=[dict(name=x["name"], kind=x["kind"], ignore=x["ignore"]) for x in funcs],
-                           steps=seg["steps"], dir=d, compress=compress, recache=recache, verbose=verbose), f)
+                           steps=seg["steps"], dir=d, compress=compress, recache=recache, verbose=verbose,
+                           location_style=(location_styles or ["plain"])[si % len(location_styles or ["plain"])]), f)
         r = harness.run_py([SESSION, cf, of], timeout=timeout, hashseed=seg.get("hashseed", "0"), result_file=of, cwd=d)
         outs.append((r["result"], r))
     return outs
@@ -311,6 +312,12 @@ def build_case(rng, sigs, with_ignore, nfuncs=5, ncalls=40, nproc=1):
     # repeat some earlier steps later (hits), possibly in another process
     reps = [dict(s, perm=rng.randrange(1 << 20), check_before=True, share=not s.get("share")) for s in rng.sample(steps, min(len(steps), max(3, len(steps) // 3)))]
     steps += reps
+    if rng.random() < 0.4:
+        # the cache is cleared on purpose in the middle of the history (the whole Memory, or one function): what was computed
+        # before is gone, what is computed afterwards must be found again - by this process and by the next one
+        for _ in range(rng.randint(1, 3)):
+            steps.insert(rng.randrange(len(steps) // 3, len(steps)), dict(op="clear", what=rng.choice(["memory", "memory", "function"]), f=rng.randrange(nfuncs),
+                                                                         holder=rng.choice(["h0", "h1"]), args=[], kwargs={}))
     segs = []
     n = len(steps)
     cuts = sorted(rng.sample(range(1, n), nproc - 1)) if nproc > 1 and n > nproc else []
